@@ -58,6 +58,14 @@ def entry_points(kind_, attr):
         ]
         if attr:
             eps.append(("setattr", lambda a: ("setattr", ("n", a))))
+        # positions that already hold a nested container (the in-place merge path)
+        eps += [
+            ("update-over-dict", lambda a: ("update", ({"dd": a}, {}))),
+            ("update-over-list", lambda a: ("update", ({"ll": a}, {}))),
+            ("reset-over-dict", lambda a: ("reset", ({"dd": a, "ll": [0]},))),
+            ("reset-over-list", lambda a: ("reset", ({"dd": {"y": 0}, "ll": a},))),
+            ("setitem-over-dict", lambda a: ("setitem", ("dd", a))),
+        ]
         return eps
     return [
         ("setitem", lambda a: ("setitem", (0, a))),
@@ -67,6 +75,8 @@ def entry_points(kind_, attr):
         ("extend", lambda a: ("extend", ([a],))),
         ("iadd", lambda a: ("iadd", ([a],))),
         ("reset", lambda a: ("reset", ([a],))),
+        ("reset-over-containers", lambda a: ("reset", ([a, a, 0],))),
+        ("setitem-over-list", lambda a: ("setitem", (1, a))),
     ]
 
 
@@ -92,12 +102,12 @@ def cases_for(clsname, with_warmup):
     k = env.kind_of(clsname)
     attr = fam in env.ATTR_FAMILIES
     if k == "dict":
-        init = {"d": {"x": 0}, "l": [0], "v": 1}
+        init = {"d": {"x": 0, "dd": {"y": 0}, "ll": [0]}, "l": [{"y": 0}, [0], 0], "v": 1, "dd": {"y": 0}, "ll": [0]}
         prefix = (("nav", 0, "d"), ("nav", 0, "l"))
         targets = [("root", 0, "dict"), ("nested-dict", 1, "dict"), ("nested-list", 2, "list")]
         warm = ("op", 0, "setitem", ("warm", {"y": [1]}))
     else:
-        init = [{"x": 0}, [0], 1]
+        init = [{"x": 0, "dd": {"y": 0}, "ll": [0]}, [{"y": 0}, [0], 0], 1]
         prefix = (("nav", 0, 0), ("nav", 0, 1))
         targets = [("root", 0, "list"), ("nested-dict", 1, "dict"), ("nested-list", 2, "list")]
         warm = ("op", 0, "append", ({"y": [1]},))
